@@ -488,4 +488,70 @@ theorem excl_removeLink {s s' : DState} {p : Path} {i : Nat} (hex : Excl s)
         unfold kindOf at hk' ⊢
         rw [getAttr_delLink] at hk'; exact hk'
 
+/-- an operation that changes no child table and no kind keeps the invariant -/
+theorem excl_of_same {s s' : DState} (h : Excl s) (hc : ∀ k m, s'.g.child? k m = s.g.child? k m)
+    (hk : ∀ k, kindOf s'.g k = kindOf s.g k) : Excl s' := by
+  intro k hkr
+  have := h k (by rw [← hk]; exact hkr)
+  simpa [hasLink, hasChild_eq, hc] using this
+
+theorem excl_setDimAttr {s s' : DState} {p : Path} {i : Nat} {attr : String} {v : Option String}
+    (hex : Excl s) (h : setDimAttr s p i attr v = .ok s') : Excl s' := by
+  unfold setDimAttr at h
+  cases hdn : dimAt s p i with
+  | error e => simp [hdn] at h
+  | ok dn =>
+    simp only [hdn] at h
+    have hattr : attr = "unit" ∨ attr = "label" := by
+      by_cases h1 : attr = "unit"
+      · exact Or.inl h1
+      · by_cases h2 : attr = "label"
+        · exact Or.inr h2
+        · simp [h1, h2] at h
+    have hne : "~kind" ≠ attr := by rcases hattr with e | e <;> rw [e] <;> decide
+    have key : ∀ x, Excl { s with g := s.g.setAttr x attr v } := by
+      intro x
+      apply excl_of_same hex
+      · intro k m; exact child?_setAttr _ _ _ _ _ _
+      · intro k; unfold kindOf; rw [getAttr_setAttr_attr_ne _ _ _ _ hne]
+    split at h
+    · cases h
+    · split at h
+      · cases h
+      · split at h
+        · split at h
+          · have hs' := (Except.ok.inj h).symm; subst hs'; exact key _
+          · cases h
+        · have hs' := (Except.ok.inj h).symm; subst hs'; exact key _
+
+theorem excl_setLabels {s s' : DState} {p : Path} {i : Nat} {ls : List String}
+    (hex : Excl s) (h : setLabels s p i ls = .ok s') : Excl s' := by
+  unfold setLabels at h
+  cases hdn : dimAt s p i with
+  | error e => simp [hdn] at h
+  | ok dn =>
+    simp only [hdn] at h
+    have hks : kindOf s.g dn = kDimSet := Classical.byContradiction fun hc => by simp [hc] at h
+    simp only [hks, bne_self_eq_false, Bool.false_eq_true, ↓reduceIte] at h
+    split at h
+    · cases h
+    · have hs' := (Except.ok.inj h).symm
+      subst hs'
+      have hkind : ∀ k, kindOf (ensureDataset s.g dn "labels").1 k = kindOf s.g k := by
+        intro k
+        unfold ensureDataset kindOf
+        cases s.g.child? dn "labels" with
+        | some c => rfl
+        | none => simp only; rw [getAttr_addLink, getAttr_newNode]
+      apply excl_of_frame dn hex
+      · intro hr
+        rw [hkind, hks] at hr
+        exact absurd hr (by decide)
+      · intro k hk hk'
+        refine ⟨by rw [← hkind]; exact hk', ?_, ?_⟩ <;>
+        · unfold ensureDataset
+          cases s.g.child? dn "labels" with
+          | some c => rfl
+          | none => simp only; rw [child?_addLink_ne _ _ _ hk, child?_newNode]
+
 end Nix.DimLink.Lemmas
